@@ -9,3 +9,9 @@ for _pid in ("C01", "C02"):
     p["rule"] += _W_RULE
     p["trivial_labels"] = list(p.get("trivial_labels", [])) + ["rules-rejected"]
     p["trusted_base"] += ["stream wire: the loopback interface and the name `localhost` of the sandbox; net/http's Transport itself (what is checked is NewRouter's configuration and use of it)"]
+
+# whole-shape pins of three small functions the streams rest on (round 5)
+PROPS["C01"]["theorems"] += [T("Pins.newRouterShape", "pin", "NewRouter: net/http's Transport over the standard library's dialer, whole function body pinned (stream wire drives it)")]
+PROPS["C02"]["theorems"] += [T("Pins.newRouterShape", "pin", "NewRouter: net/http's Transport over the standard library's dialer, whole function body pinned (stream wire drives it)")]
+PROPS["C03"]["theorems"] += [T("Pins.retryableShape", "pin", "retryable: every method but POST, whatever the body - both callers (body buffering in routeRequest, the repeat loop in performRequest) ask the same question")]
+PROPS["C05"]["theorems"] += [T("Pins.writeErrorShape", "pin", "writeError: user error = its code + JSON message, failed client write = nothing, everything else (a cancelled request context included) a bare 500")]
